@@ -2,7 +2,7 @@
    Only the property theorems, closed by `exact`, with their assumptions and non-vacuity examples. *)
 From Coq Require Import List NArith ZArith Bool Ring Reals Lra.
 From QI Require Import Base.ListAux Base.Scalar Model.Outcome Model.Validate Model.Gates Model.StateOps Model.Pauli Spec.Embed
-  Proofs.PauliF Proofs.C04a Proofs.C08 Proofs.C09 Proofs.C09b Proofs.C09c Run.RInst Run.ZInst.
+  Proofs.PauliF Proofs.C04a Proofs.C08 Proofs.C09 Proofs.C09b Proofs.C09c Proofs.C09d Run.RInst Run.ZInst.
 Import ListNotations.
 Open Scope N_scope.
 
@@ -49,6 +49,26 @@ Theorem C09_neg_i_exponential_series_converges :
   Un_cv (fun N0 => snd (series_op rops invfact (nix x) ops N0 psi k)) (snd (expf rops (cos x, 0%R) (0%R, (- sin x)%R) ops psi k)).
 Proof. exact series_converges. Qed.
 Print Assumptions C09_neg_i_exponential_series_converges.
+
+(* ... and for EVERY complex exponent alpha = u + i v (apply_exp with a complex coefficient, apply_exp_factor): the scalar series
+   sum alpha^k / k! converges to e^u (cos v + i sin v) (Cauchy product of the absolutely convergent series of e^u and e^{iv}), and
+   the operator series converges amplitude by amplitude to cosh(alpha) psi + sinh(alpha) P psi, where
+   cosh(u + i v) = cosh u cos v + i sinh u sin v and sinh(u + i v) = sinh u cos v + i cosh u sin v. *)
+Theorem C09_complex_exponential_series :
+  forall u v : R,
+  infinite_sum (fun k => fst (cmul rops (invfact k) (cpow rops (u, v) k))) (exp u * cos v)%R /\
+  infinite_sum (fun k => snd (cmul rops (invfact k) (cpow rops (u, v) k))) (exp u * sin v)%R.
+Proof. exact complex_exp_series_Reals. Qed.
+Theorem C09_exponential_series_converges :
+  forall (ops : list (N * pauli)), NoDup (map fst ops) -> forall (u v : R) (psi : N -> C (T:=R)) (k : N),
+  Un_cv (fun N0 => fst (series_op rops invfact (u, v) ops N0 psi k)) (fst (expf rops (ccosh u v) (csinh u v) ops psi k)) /\
+  Un_cv (fun N0 => snd (series_op rops invfact (u, v) ops N0 psi k)) (snd (expf rops (ccosh u v) (csinh u v) ops psi k)).
+Proof. exact general_series_converges. Qed.
+(* the two limits named: the complex hyperbolic functions in terms of the real ones *)
+Theorem C09_complex_cosh_sinh :
+  forall u v : R, ccosh u v = ((cosh u * cos v)%R, (sinh u * sin v)%R) /\ csinh u v = ((sinh u * cos v)%R, (cosh u * sin v)%R).
+Proof. exact (fun u v => conj eq_refl eq_refl). Qed.
+Print Assumptions C09_complex_exponential_series. Print Assumptions C09_exponential_series_converges.
 
 (* exp(0 P) = I and exp(aP) exp(bP) = exp((a+b)P), given the addition formulas of the supplied values *)
 Theorem C09_exp_zero :
